@@ -18,6 +18,8 @@ import ast
 
 from ..model import AnalysisError, src, walk_no_nested
 from ..terms import callee_name, calls_in, compare_parts, flatten_add, inline, kwargs_of, single_def
+from ..sval import strip_ids
+from .. import tq
 from . import common
 
 EXPLANATION = ('static analysis: dominance of establishment/installation by the identity comparisons and the AUTH '
@@ -85,20 +87,20 @@ def run(ctx):
         rets = [n for n in g.nodes if n.kind == 'stmt' and isinstance(n.ast, ast.Return)]
         E += [(n, 'normal return') for n in rets]
         # identity comparisons
+        SV = ctx.sval(fi)
         for attr in ('id_type', 'id_data'):
             conds = []
+            # the comparison is recognised by its value term: received <idtype>.<attr> == configured peer identity's <attr>
+            want = strip_ids(SV.expr('%s.get_payload(Payload.Type.%s, True).%s == self.configuration.peer_auth.id.%s' % (
+                msgp, idtype, attr, attr)))
             for c in g.nodes:
-                if c.kind != 'cond':
+                if c.kind != 'cond' or id(c.ast) not in SV.terms:
                     continue
-                cp = compare_parts(c.ast)
-                if not cp or cp[1] not in (ast.NotEq, ast.Eq):
-                    continue
-                sides = [cp[0], cp[2]]
-                conf = [s for s in sides if src(s) == 'self.configuration.peer_auth.id.' + attr]
-                peer = [s for s in sides if isinstance(s, ast.Attribute) and s.attr == attr and isinstance(s.value, ast.Name)
-                        and lookup_of(res, fi, s.value.id) == (msgp, idtype, True)]
-                if len(conf) == 1 and len(peer) == 1:
-                    conds.append((c, 'F' if cp[1] is ast.NotEq else 'T'))
+                t = strip_ids(SV.terms[id(c.ast)])
+                if t == want:
+                    conds.append((c, 'T'))
+                elif t == ('not', want):
+                    conds.append((c, 'F'))
             ctx.check(len(conds) >= 1, 'G1', '%s compares the received %s.%s with the configured peer identity' % (
                 fi.name, idtype, attr), key=('G1', q, 'id-compare-missing', attr), site=ctx.site(fi, fi.node))
             for c, passing in conds:
@@ -121,21 +123,19 @@ def run(ctx):
             ctx.check(ok, 'G1', '%s: %s is reached only after _verify_auth_payload returned' % (fi.name, what),
                       key=('G1', q, 'verify-not-dominating', what), site=ctx.site(fi, n.ast))
         # G3 for the verify site
-        for v, x in ver:
-            b = kwargs_of(x, target=ctx.func('ikesa.IkeSa._verify_auth_payload'))
+        for c in SV.calls_to(qual='ikesa.IkeSa._verify_auth_payload'):
             signer = 'initiator' if role == 'responder' else 'responder'
-            check_site(ctx, fi, x, b, signer, verify=True, msgp=msgp, idtype=idtype)
+            check_site(ctx, fi, c, signer, verify=True, msgp=msgp, idtype=idtype)
 
     # ---------------------------------------------------------------- G3 generate sites
     gen_req = ctx.func('ikesa.IkeSa.generate_ike_auth_request')
     sites = [(gen_req, 'initiator', 'PayloadIDi'), (ctx.func(AUTH_REQ), 'responder', 'PayloadIDr')]
     for fi, signer, idcls in sites:
-        calls = [c for c in calls_in(fi.node) if callee_name(c) == '_generate_auth_payload']
+        calls = ctx.sval(fi).calls_to(qual='ikesa.IkeSa._generate_auth_payload')
         ctx.check(len(calls) == 1, 'G3', '%s generates exactly one AUTH payload' % fi.name, key=('G3', fi.qual, 'gen-count'),
                   site=ctx.site(fi, fi.node))
         for x in calls:
-            b = kwargs_of(x, target=ctx.func('ikesa.IkeSa._generate_auth_payload'))
-            check_site(ctx, fi, x, b, signer, verify=False, idcls=idcls)
+            check_site(ctx, fi, x, signer, verify=False, idcls=idcls)
     check_helpers(ctx)
 
     # ---------------------------------------------------------------- G2
@@ -146,29 +146,31 @@ def run(ctx):
 
     # ---------------------------------------------------------------- G5
     fi = ctx.func('ikesa.IkeSa.process_ike_sa_negotiation_response')
-    g = esc.add_exception_edges(fi)
-    subs = [c for c in g.nodes if c.kind == 'cond' and isinstance(c.ast, ast.Call) and callee_name(c.ast) == 'is_subset'
-            and c.ast.args and src(c.ast.args[0]) == 'self.chosen_proposal']
-    ctx.check(len(subs) == 1, 'G5', 'the initiator tests the responder\'s proposal with is_subset(own offer)',
-              key=('G5', 'no-subset-test'), site=ctx.site(fi, fi.node))
+    N = ctx.sval(fi)
+    ps = fi.call_params()
+    site = ctx.site(fi, fi.node)
+    tested = N.expr('%s.get_payload(Payload.Type.SA, %s).proposals[0]' % (ps[0], ps[2] if len(ps) > 2 else 'False'))
+    alt = N.expr('%s.get_payload(Payload.Type.SA, _).proposals[0]' % ps[0])
+    offer = ('attr', ('param', 'self'), 'chosen_proposal')
+    gate = ('call', 'message.Proposal.is_subset', strip_ids(tested), (('other', offer),))
+    subs = [c for c in N.calls if c.name == 'is_subset' and tq.match(alt, c.recv or ('undef',)) is not None
+            and list(c.args.values()) == [offer]]
+    ctx.check(len(subs) == 1, 'G5', 'the initiator tests the first proposal of the response\'s SA payload with is_subset(own offer)',
+              key=('G5', 'no-subset-test'), site=site)
     for c in subs:
-        fn = [m for lab, m in c.succ if lab == 'F']
-        ctx.check(bool(fn) and all(isinstance(m.ast, ast.Raise) and 'NoProposalChosen' in src(m.ast) for m in fn), 'G5',
-                  'a response proposal outside the offer raises NoProposalChosen', key=('G5', 'raise'), site=ctx.site(fi, c.ast))
-        tested = inline(res, fi, c.ast.func.value, 3)
-        ps = fi.call_params()
-        ok = src(tested).startswith('%s.get_payload(Payload.Type.SA' % ps[0]) and src(tested).endswith('.proposals[0]')
-        ctx.check(ok, 'G5', 'the tested proposal is the first proposal of the response\'s SA payload',
-                  key=('G5', 'tested-proposal'), site=ctx.site(fi, c.ast))
-        for n in g.nodes:
-            if n.kind == 'stmt' and isinstance(n.ast, ast.Assign) and any(src(t) == 'self.chosen_proposal' for t in n.ast.targets):
-                ctx.check(common.dominated_by_edge(g, n, c, 'T'), 'G5', 'chosen_proposal is replaced only after the test passed',
-                          key=('G5', 'assign-dominated'), site=ctx.site(fi, n.ast))
-                ctx.check(src(inline(res, fi, n.ast.value, 3)) == src(tested), 'G5',
-                          'the adopted proposal is the tested one', key=('G5', 'adopted-is-tested'), site=ctx.site(fi, n.ast))
-        for n, x in common.nodes_calling(ctx, fi, g, common.calls_named('generate_ike_sa_key_material')):
-            ctx.check(common.dominated_by_edge(g, n, c, 'T'), 'G5', 'keys are derived only after the test passed',
-                      key=('G5', 'keys-dominated'), site=ctx.site(fi, x))
+        gate = c.term
+        refuse = [(pc, t) for pc, t, _ in N.raises if (gate, False) in [(a[0], a[1]) for a in pc]]
+        ctx.check(bool(refuse) and all(tq.is_call(t, 'new message.NoProposalChosen') for _, t in refuse), 'G5',
+                  'a response proposal outside the offer raises NoProposalChosen', key=('G5', 'raise'), site=ctx.site(fi, c.node))
+        for t, v, pc, st, _ in N.stores:
+            if t == offer:
+                ctx.check(tq.entails(pc, gate) is True, 'G5', 'chosen_proposal is replaced only after the test passed',
+                          key=('G5', 'assign-dominated'), site=ctx.site(fi, st))
+                ctx.check(v == c.recv, 'G5', 'the adopted proposal is the tested one', key=('G5', 'adopted-is-tested'), site=ctx.site(fi, st),
+                          detail={'adopted': tq.text(v, 200)})
+        for k in N.calls_to(qual='ikesa.IkeSa.generate_ike_sa_key_material'):
+            ctx.check(tq.entails(k.pc, gate) is True, 'G5', 'keys are derived only after the test passed',
+                      key=('G5', 'keys-dominated'), site=ctx.site(fi, k.node))
 
     # ---------------------------------------------------------------- G6
     ts = common.typestate(ctx, esc)
@@ -219,186 +221,159 @@ def run(ctx):
     ctx.note(ASSUMPTIONS[1])
 
 
-def check_site(ctx, fi, call, b, signer, verify, msgp=None, idtype=None, idcls=None):
-    """one generate/verify site against the RFC 7296 2.15 table"""
-    res = ctx.res
+def check_site(ctx, fi, call, signer, verify, msgp=None, idtype=None, idcls=None):
+    """one generate/verify site (a sa.sval CallRec) against the RFC 7296 2.15 table"""
+    S = ctx.sval(fi)
+    b = call.args
+    site = ctx.site(fi, call.node)
     what = '%s in %s (%s signs)' % ('verify' if verify else 'generate', fi.name, signer)
     want_msg = REQ_DATA if signer == 'initiator' else RES_DATA
-    want_nonce = 'res' if signer == 'initiator' else 'req'
-    ctx.check(src(b.get('message_data')) == want_msg, 'G3', '%s: first octets are the retained IKE_SA_INIT %s' % (
-        what, 'request' if signer == 'initiator' else 'response'), key=('G3', fi.qual, verify, 'message'),
-        site=ctx.site(fi, call), detail={'found': src(b.get('message_data'))})
-    ctx.check(nonce_source(res, fi, b.get('nonce')) == want_nonce, 'G3', '%s: nonce is the other side\'s (from the retained %s)'
-              % (what, 'response' if want_nonce == 'res' else 'request'), key=('G3', fi.qual, verify, 'nonce'),
-              site=ctx.site(fi, call), detail={'found': src(inline(res, fi, b.get('nonce'), 4)) if b.get('nonce') is not None else None})
+    other = RES_DATA if signer == 'initiator' else REQ_DATA
+    common.expect_term(ctx, 'G3', S, b.get('message_data'), want_msg, '%s: first octets are the retained IKE_SA_INIT %s' % (
+        what, 'request' if signer == 'initiator' else 'response'), ('G3', fi.qual, verify, 'message'), site)
+    common.expect_term(ctx, 'G3', S, b.get('nonce'), 'Message.parse(%s).get_payload(Payload.Type.NONCE).nonce' % other,
+                       '%s: nonce is the other side\'s (from the retained %s)' % (what, 'response' if signer == 'initiator' else 'request'),
+                       ('G3', fi.qual, verify, 'nonce'), site)
     want_key = 'self.peer_crypto.sk_p' if verify else 'self.my_crypto.sk_p'
-    ctx.check(src(b.get('sk_p')) == want_key, 'G3', '%s: keyed with %s' % (what, want_key),
-              key=('G3', fi.qual, verify, 'sk_p'), site=ctx.site(fi, call), detail={'found': src(b.get('sk_p'))})
+    common.expect_term(ctx, 'G3', S, b.get('sk_p'), want_key, '%s: keyed with %s' % (what, want_key), ('G3', fi.qual, verify, 'sk_p'), site)
     pid = b.get('payload_id')
     if verify:
-        ok = isinstance(pid, ast.Name) and lookup_of(res, fi, pid.id) == (msgp, idtype, True)
-        ctx.check(ok, 'G3', '%s: the ID payload is the %s received in this (protected) message' % (what, idtype),
-                  key=('G3', fi.qual, verify, 'id'), site=ctx.site(fi, call))
-        pa = b.get('payload_auth')
-        ok = isinstance(pa, ast.Name) and lookup_of(res, fi, pa.id) == (msgp, 'AUTH', True)
-        ctx.check(ok, 'G3', '%s: the AUTH payload is the one received in this (protected) message' % what,
-                  key=('G3', fi.qual, verify, 'auth'), site=ctx.site(fi, call))
+        common.expect_term(ctx, 'G3', S, pid, '%s.get_payload(Payload.Type.%s, True)' % (msgp, idtype),
+                           '%s: the ID payload is the %s received in this (protected) message' % (what, idtype),
+                           ('G3', fi.qual, verify, 'id'), site)
+        common.expect_term(ctx, 'G3', S, b.get('payload_auth'), '%s.get_payload(Payload.Type.AUTH, True)' % msgp,
+                           '%s: the AUTH payload is the one received in this (protected) message' % what,
+                           ('G3', fi.qual, verify, 'auth'), site)
     else:
-        d = single_def(res, fi, pid.id) if isinstance(pid, ast.Name) else None
-        ok = isinstance(d, ast.Call) and callee_name(d) == idcls and [src(a) for a in d.args] == [
-            'self.configuration.my_auth.id.id_type', 'self.configuration.my_auth.id.id_data']
-        ctx.check(ok, 'G3', '%s: the ID payload is the %s built from our configured identity' % (what, idcls),
-                  key=('G3', fi.qual, verify, 'id'), site=ctx.site(fi, call))
+        common.expect_term(ctx, 'G3', S, pid, '%s(self.configuration.my_auth.id.id_type, self.configuration.my_auth.id.id_data)' % idcls,
+                           '%s: the ID payload is the %s built from our configured identity' % (what, idcls),
+                           ('G3', fi.qual, verify, 'id'), site)
         # the same objects are sent
-        sent = [c for c in calls_in(fi.node) if callee_name(c) in ('generate_request', 'generate_response')]
-        auth_name = None
-        for n in walk_no_nested(fi.node):
-            if isinstance(n, ast.Assign) and n.value is call and isinstance(n.targets[0], ast.Name):
-                auth_name = n.targets[0].id
+        sent = [c for c in S.calls if c.name in ('generate_request', 'generate_response')]
         ok = False
         for c in sent:
-            if len(c.args) >= 2:
-                t = src(inline(res, fi, c.args[1], 2, stop=frozenset([pid.id if isinstance(pid, ast.Name) else '', auth_name or ''])))
-                # `response_payloads += [idr, auth]` style: look at augmented assignments too
-                extra = ' '.join(src(n.value) for n in walk_no_nested(fi.node) if isinstance(n, ast.AugAssign))
-                ok = ok or (isinstance(pid, ast.Name) and auth_name is not None
-                            and pid.id in t + extra and auth_name in t + extra)
+            pl = c.args.get('payloads')
+            if pl is not None and pid is not None:
+                ok = ok or (tq.contains(pl, pid) and tq.contains(pl, call.term) and
+                            any(x == pid for x in tq.find(pl, lambda t: t == pid)) and any(x == call.term for x in tq.find(pl, lambda t: t == call.term)))
         ctx.check(ok, 'G3', '%s: the signed ID payload and the AUTH payload are the ones put into the message' % what,
-                  key=('G3', fi.qual, verify, 'sent'), site=ctx.site(fi, call))
+                  key=('G3', fi.qual, verify, 'sent'), site=site)
+
+
+OCTETS = 'message_data + nonce + self.my_crypto.prf.prf(sk_p, payload_id.to_bytes())'
 
 
 def check_helpers(ctx):
-    res = ctx.res
-    for name in ('_generate_auth_payload', '_verify_auth_payload'):
-        fi = ctx.func('ikesa.IkeSa.' + name)
-        d = single_def(res, fi, 'data_to_be_signed')
-        ok = isinstance(d, ast.AST)
-        if ok:
-            ops = flatten_add(d)
-            ok = len(ops) == 3 and src(ops[0]) == 'message_data' and src(ops[1]) == 'nonce' and isinstance(ops[2], ast.Call) \
-                and callee_name(ops[2]) == 'prf' and src(ops[2].func.value) == 'self.my_crypto.prf' \
-                and [src(a) for a in ops[2].args] == ['sk_p', 'payload_id.to_bytes()']
-        ctx.check(ok, 'G3', '%s signs message | nonce | prf(SK_p, ID payload body)' % name, key=('G3', name, 'octets'),
-                  site=ctx.site(fi, fi.node), detail={'found': src(d) if isinstance(d, ast.AST) else None})
+    gen = ctx.func('ikesa.IkeSa._generate_auth_payload')
+    ctx.require(gen.call_params() == ['message_data', 'nonce', 'payload_id', 'sk_p'],
+                'parameters of _generate_auth_payload changed: %s' % gen.call_params())
+    G = ctx.sval(gen)
+    site = ctx.site(gen, gen.node)
+    data = strip_ids(G.expr(OCTETS))
+    mine = 'self.configuration.my_auth'
+    rets = [(pc, strip_ids(t)) for pc, t, _ in G.returns]
+    rsa = [(pc, t) for pc, t in rets if tq.is_call(t, 'ikesa.IkeSa._generate_rsa_auth_payload')]
+    psk = [(pc, t) for pc, t in rets if tq.is_call(t, 'ikesa.IkeSa._generate_psk_auth_payload')]
+    ctx.check(len(rets) == len(rsa) + len(psk) and len(rsa) == 1 and len(psk) == 1, 'G3',
+              'the AUTH payload is generated by the RSA or the PSK routine', key=('G3', 'gen-dispatch-shape'), site=site,
+              detail={'returns': [tq.text(t, 200) for _, t in rets]})
+    ok = bool(rsa) and bool(psk) and tq.entails(rsa[0][0], G.expr(mine + '.privkey')) is True \
+        and tq.entails(psk[0][0], G.expr(mine + '.psk')) is True
+    ctx.check(ok, 'G3', 'the AUTH payload is generated with our own credentials (private key, else PSK)', key=('G3', 'gen-dispatch'), site=site)
+    ctx.check(bool(rsa) and bool(psk) and list(tq.args(rsa[0][1]).values()) == [data] and
+              tq.args(psk[0][1]) == {'psk': strip_ids(G.expr(mine + '.psk')), 'data_to_be_signed': data}, 'G3',
+              '_generate_auth_payload signs message | nonce | prf(SK_p, ID payload body), PSK generation with our own PSK',
+              key=('G3', '_generate_auth_payload', 'octets'), site=site,
+              detail={'found': [tq.text(t, 400) for _, t in rets]})
+    ctx.check(all(tq.is_call(t, 'new message.AuthenticationFailed') for _, t, _ in G.raises) and len(G.raises) >= 1, 'G3',
+              'without credentials no AUTH payload is produced (AuthenticationFailed)', key=('G3', 'gen-no-credentials'), site=site)
     fi = ctx.func('ikesa.IkeSa._generate_psk_auth_payload')
     ps = fi.call_params()
-    rets = [n for n in walk_no_nested(fi.node) if isinstance(n, ast.Return)]
-    ok = len(rets) == 1
-    if ok:
-        e = inline(res, fi, rets[0].value, 3)
-        ok = isinstance(e, ast.Call) and callee_name(e) == 'PayloadAUTH' and len(e.args) == 2 \
-            and src(e.args[0]).endswith('Method.PSK') and isinstance(e.args[1], ast.Call) and callee_name(e.args[1]) == 'prf'
-        if ok:
-            outer = e.args[1]
-            inner = outer.args[0] if outer.args else None
-            ok = len(outer.args) == 2 and src(outer.args[1]) == ps[1] and isinstance(inner, ast.Call) \
-                and callee_name(inner) == 'prf' and len(inner.args) == 2 and src(inner.args[0]) == ps[0] \
-                and isinstance(inner.args[1], ast.Constant) and inner.args[1].value == b'Key Pad for IKEv2'
-    ctx.check(ok, 'G3', 'PSK AUTH = prf(prf(psk, "Key Pad for IKEv2"), octets) with method PSK', key=('G3', 'psk-term'),
-              site=ctx.site(fi, fi.node))
+    F = ctx.sval(fi)
+    common.expect_term(ctx, 'G3', F, F.ret(), 'PayloadAUTH(PayloadAUTH.Method.PSK, self.my_crypto.prf.prf(self.my_crypto.prf.prf(%s, '
+                       'b"Key Pad for IKEv2"), %s))' % (ps[0], ps[1]),
+                       'PSK AUTH = prf(prf(psk, "Key Pad for IKEv2"), octets) with method PSK', ('G3', 'psk-term'), ctx.site(fi, fi.node))
     fi = ctx.func('ikesa.IkeSa._generate_rsa_auth_payload')
-    rets = [n for n in walk_no_nested(fi.node) if isinstance(n, ast.Return)]
-    ok = len(rets) == 1 and isinstance(rets[0].value, ast.Call) and callee_name(rets[0].value) == 'PayloadAUTH' \
-        and src(rets[0].value.args[0]).endswith('Method.RSA') \
-        and src(rets[0].value.args[1]) == 'self.configuration.my_auth.privkey.sign(%s)' % fi.call_params()[0]
-    ctx.check(ok, 'G3', 'RSA AUTH = sign(own private key, octets) with method RSA', key=('G3', 'rsa-term'),
-              site=ctx.site(fi, fi.node))
-    # dispatch of the generator uses our own credentials
-    fi = ctx.func('ikesa.IkeSa._generate_auth_payload')
-    t = [src(n.test) for n in walk_no_nested(fi.node) if isinstance(n, ast.If)]
-    ctx.check(t == ['self.configuration.my_auth.privkey', 'self.configuration.my_auth.psk'] or
-              t == ['self.configuration.my_auth.psk', 'self.configuration.my_auth.privkey'], 'G3',
-              'the AUTH payload is generated with our own credentials', key=('G3', 'gen-dispatch'), site=ctx.site(fi, fi.node))
-    pk = [c for c in calls_in(fi.node) if callee_name(c) == '_generate_psk_auth_payload']
-    ctx.check(len(pk) == 1 and [src(a) for a in pk[0].args] == ['self.configuration.my_auth.psk', 'data_to_be_signed'], 'G3',
-              'PSK generation uses our own PSK over the signed octets', key=('G3', 'gen-psk-args'), site=ctx.site(fi, fi.node))
+    F = ctx.sval(fi)
+    common.expect_term(ctx, 'G3', F, F.ret(), 'PayloadAUTH(PayloadAUTH.Method.RSA, self.configuration.my_auth.privkey.sign(%s))'
+                       % fi.call_params()[0], 'RSA AUTH = sign(own private key, octets) with method RSA', ('G3', 'rsa-term'),
+                       ctx.site(fi, fi.node))
     # ID payload body
     fi = ctx.func('message.PayloadID.to_bytes')
-    packs = [c for c in calls_in(fi.node) if callee_name(c) == 'pack']
-    ok = len(packs) == 1 and isinstance(packs[0].args[0], ast.Constant) and packs[0].args[0].value in ('>BBH', '>B3x', '>B3s') \
-        and src(packs[0].args[1]) == 'self.id_type' and all(isinstance(a, ast.Constant) and a.value in (0, b'\0\0\0')
-                                                            for a in packs[0].args[2:])
-    adds = [n for n in walk_no_nested(fi.node) if isinstance(n, ast.AugAssign) and src(n.value) == 'self.id_data']
-    ctx.check(ok and len(adds) == 1, 'G3', 'ID payload body = type, three zero octets, identification data',
-              key=('G3', 'id-body'), site=ctx.site(fi, fi.node))
+    F = ctx.sval(fi)
+    r = strip_ids(F.ret())
+    parts = list(r[1]) if r[0] == 'add' else []
+    ok = len(parts) == 2 and parts[1] == ('attr', ('param', 'self'), 'id_data')
+    if ok:
+        head = parts[0]
+        if tq.is_call(head, 'builtins.bytearray') or tq.is_call(head, 'builtins.bytes'):
+            head = list(tq.args(head).values())[0]
+        ok = tq.is_call(head, 'struct.pack')
+        if ok:
+            a = list(tq.args(head).values())
+            ok = a[0][0] == 'const' and a[0][2] in ('>BBH', '>B3x', '>B3s', '!BBH', '!B3x') and a[1] == ('attr', ('param', 'self'), 'id_type') \
+                and all(x[0] == 'const' and x[2] in (0, b'\0\0\0') for x in a[2:])
+    ctx.check(ok, 'G3', 'ID payload body = type, three zero octets, identification data', key=('G3', 'id-body'), site=ctx.site(fi, fi.node),
+              detail={'returned': tq.text(r)})
     eq = ctx.func('message.PayloadAUTH.__eq__')
-    t = src(eq.node.body[-1])
-    ctx.check('self.method' in t and 'self.auth_data' in t and 'other.method' in t and 'other.auth_data' in t and '==' in t,
-              'G2', 'PayloadAUTH equality covers method and authentication data', key=('G2', 'auth-eq'), site=ctx.site(eq, eq.node))
+    Q = ctx.sval(eq)
+    o = eq.call_params()[0]
+    vals = []
+    for a, b, c, d in ((1, b'x', 1, b'x'), (1, b'x', 2, b'x'), (1, b'x', 1, b'y'), (2, b'y', 1, b'x')):
+        v = common.term_table(ctx, Q.ret(), [{'self.method': a, 'self.auth_data': b, o + '.method': c, o + '.auth_data': d}], None)
+        vals.append(bool(v[0]) if v else None)
+    ctx.check(vals == [True, False, False, False], 'G2', 'PayloadAUTH equality covers method and authentication data', key=('G2', 'auth-eq'),
+              site=ctx.site(eq, eq.node), detail={'returned': tq.text(Q.ret())})
 
 
 def check_verify(ctx, esc):
-    res = ctx.res
     fi = ctx.func('ikesa.IkeSa._verify_auth_payload')
-    g = esc.add_exception_edges(fi)
-    ps = fi.call_params()
-    pa = ps[0]
-    psk_c, rsa_c = [], []
-    for c in g.nodes:
-        if c.kind != 'cond':
-            continue
-        cp = compare_parts(c.ast)
-        if cp and cp[1] in (ast.NotEq, ast.Eq):
-            sides = [cp[0], cp[2]]
-            calls = [s for s in sides if isinstance(s, ast.Call) and callee_name(s) == '_generate_psk_auth_payload']
-            recv = [s for s in sides if src(s) == pa]
-            if len(calls) == 1 and len(recv) == 1:
-                ok = [src(a) for a in calls[0].args] == ['self.configuration.peer_auth.psk', 'data_to_be_signed']
-                ctx.check(ok, 'G2', 'the expected PSK AUTH is computed with the configured peer PSK over the signed octets',
-                          key=('G2', 'psk-args'), site=ctx.site(fi, c.ast))
-                psk_c.append((c, 'F' if cp[1] is ast.NotEq else 'T'))
-        if isinstance(c.ast, ast.Call) and callee_name(c.ast) == '_verify_rsa_auth_payload':
-            ok = [src(a) for a in c.ast.args] == [pa + '.auth_data', 'data_to_be_signed']
-            ctx.check(ok, 'G2', 'the RSA signature is checked over the signed octets', key=('G2', 'rsa-args'),
-                      site=ctx.site(fi, c.ast))
-            rsa_c.append((c, 'T'))
-    ctx.check(len(psk_c) == 1 and len(rsa_c) == 1, 'G2', '_verify_auth_payload has one PSK comparison and one RSA verification',
-              key=('G2', 'comparisons'), site=ctx.site(fi, fi.node))
-    checks = psk_c + rsa_c
-    for c, passing in checks:
-        failing = 'T' if passing == 'F' else 'F'
-        fn = [m for lab, m in c.succ if lab == failing]
-        ctx.check(bool(fn) and all(isinstance(m.ast, ast.Raise) and 'AuthenticationFailed' in src(m.ast) for m in fn), 'G2',
-                  'a failed `%s` raises AuthenticationFailed' % src(c.ast)[:50], key=('G2', 'fail-raise', src(c.ast)[:40]),
-                  site=ctx.site(fi, c.ast))
-    # every normal-return path passes one of the two
-    blocked = [(c.id, p, m.id) for c, p in checks for lab, m in c.succ if lab == p]
-    ctx.check(bool(checks) and g.exit.id not in g.reach([g.entry], blocked_edges=blocked, follow_exc=False), 'G2',
-              'every normal return of _verify_auth_payload passed the PSK comparison or the RSA verification',
-              key=('G2', 'return-without-check'), site=ctx.site(fi, fi.node))
-    # method dispatch
-    for (c, p), meth, cred in [(x, 'PSK', 'psk') for x in psk_c] + [(x, 'RSA', 'pubkey') for x in rsa_c]:
-        mconds = [m for m in g.nodes if m.kind == 'cond' and compare_parts(m.ast) and compare_parts(m.ast)[1] is ast.Eq
-                  and src(compare_parts(m.ast)[0]) == pa + '.method' and src(compare_parts(m.ast)[2]).endswith('Method.' + meth)]
-        cconds = [m for m in g.nodes if m.kind == 'cond' and src(m.ast) == 'self.configuration.peer_auth.' + cred]
-        ctx.check(any(common.dominated_by_edge(g, c, m, 'T') for m in mconds) and
-                  any(common.dominated_by_edge(g, c, m, 'T') for m in cconds), 'G2',
-                  'the %s check runs for method %s with the configured peer %s' % (meth, meth, cred),
-                  key=('G2', 'dispatch', meth), site=ctx.site(fi, c.ast))
+    ctx.require(fi.call_params() == ['payload_auth', 'message_data', 'nonce', 'payload_id', 'sk_p'],
+                'parameters of _verify_auth_payload changed: %s' % fi.call_params())
+    V = ctx.sval(fi)
+    site = ctx.site(fi, fi.node)
+    peer = 'self.configuration.peer_auth'
+    psk_ok = ('payload_auth.method == PayloadAUTH.Method.PSK and %s.psk and '
+              'self._generate_psk_auth_payload(%s.psk, %s) == payload_auth' % (peer, peer, OCTETS))
+    rsa_ok = ('payload_auth.method == PayloadAUTH.Method.RSA and %s.pubkey and '
+              'self._verify_rsa_auth_payload(payload_auth.auth_data, %s)' % (peer, OCTETS))
+    goal = V.expr('(%s) or (%s)' % (psk_ok, rsa_ok))
+    exits = [pc for pc, _ in V.exit_envs]
+    ctx.check(len(exits) >= 1, 'G2', '_verify_auth_payload can return normally', key=('G2', 'comparisons'), site=site)
+    for k, pc in enumerate(exits):
+        ctx.check(tq.entails(pc, goal) is True, 'G2', 'every normal return of _verify_auth_payload passed the PSK comparison (expected '
+                  'AUTH computed with the configured peer PSK over the signed octets, for method PSK) or the RSA verification (over the '
+                  'signed octets, for method RSA with a configured peer key)', key=('G2', 'return-without-check', k), site=site,
+                  detail={'path condition': [('' if p else 'not ') + tq.text(t, 200) for t, p in pc]})
+    ctx.check(all(tq.is_call(t, 'new message.AuthenticationFailed') for _, t, _ in V.raises) and len(V.raises) >= 2, 'G2',
+              'every other outcome raises AuthenticationFailed', key=('G2', 'fail-raise'), site=site)
+    ctx.check(all(t == ('const', 'NoneType', None) for _, t, _ in V.returns), 'G2', 'the verdict is the absence of an exception '
+              '(no value a caller could ignore)', key=('G2', 'no-verdict-value'), site=site)
     # RSA helper + key class
     rv = ctx.func('ikesa.IkeSa._verify_rsa_auth_payload')
-    t = src(rv.node)
-    ctx.check('return self.configuration.peer_auth.pubkey.verify(%s, %s)' % tuple(rv.call_params()[:2]) in t and
-              'return False' in t and 'my_auth' not in t, 'G2', 'the RSA signature is verified with the configured peer public key',
-              key=('G2', 'rsa-helper'), site=ctx.site(rv, rv.node))
+    R = ctx.sval(rv)
+    a, d = rv.call_params()[:2]
+    want = strip_ids(R.expr('%s.pubkey.verify(%s, %s)' % (peer, a, d)))
+    rets = [(pc, strip_ids(t)) for pc, t, _ in R.returns]
+    ctx.check(bool(rets) and all(t == want or t == ('const', 'bool', False) for _, t in rets) and any(t == want for _, t in rets), 'G2',
+              'the RSA signature is verified with the configured peer public key', key=('G2', 'rsa-helper'), site=ctx.site(rv, rv.node),
+              detail={'returns': [tq.text(t) for _, t in rets]})
     kv = ctx.func('crypto.RsaPublicKey.verify')
-    gk = esc.add_exception_edges(kv)
-    rets = [n for n in gk.nodes if n.kind == 'stmt' and isinstance(n.ast, ast.Return)]
-    true_rets = [n for n in rets if isinstance(n.ast.value, ast.Constant) and n.ast.value.value is True]
-    vcall = [n for n, x in common.nodes_calling(ctx, kv, gk, lambda c, r: callee_name(c) == 'verify'
-                                               and src(c.func.value) == 'self.key')]
-    ok = len(true_rets) >= 1 and len(vcall) == 1 and all(
-        n.id not in gk.reach([gk.entry], blocked_nodes=[vcall[0]]) and not any(p == 'handler' for (_, p, _) in n.try_ctx)
-        for n in true_rets) and all(
-        isinstance(n.ast.value, ast.Constant) and n.ast.value.value in (True, False) for n in rets) and all(
-        n.ast.value.value is False for n in rets if any(p == 'handler' for (_, p, _) in n.try_ctx))
+    K = ctx.sval(kv)
+    ps2 = kv.call_params()
+    vcall = [c for c in K.calls if c.name == 'verify' and strip_ids(c.recv or ('undef',)) == ('attr', ('param', 'self'), 'key')]
+    seq = {id(st): None for _, _, st in K.returns}
+    true_rets = [(pc, st) for pc, t, st in K.returns if t == ('const', 'bool', True)]
+    other = [(pc, t) for pc, t, st in K.returns if t != ('const', 'bool', True)]
+    ok = len(vcall) == 1 and len(true_rets) >= 1 and all(not any(a_[0][0] == 'caught' for a_ in pc) for pc, _ in true_rets) \
+        and all(t == ('const', 'bool', False) and any(a_[0][0] == 'caught' for a_ in pc) for pc, t in other) \
+        and all(K.seq_of.get(id(st), 0) > vcall[0].seq for _, st in true_rets)
     ctx.check(ok, 'G2', 'RsaPublicKey.verify returns True only after key.verify() returned, False on InvalidSignature',
               key=('G2', 'rsa-key-verify'), site=ctx.site(kv, kv.node))
     if vcall:
-        x = [c for c in calls_in(kv.node) if callee_name(c) == 'verify'][0]
-        ps2 = kv.call_params()
-        ctx.check([src(a) for a in x.args[:2]] == ps2[:2], 'G2', 'key.verify(signature, data) argument order',
-                  key=('G2', 'rsa-key-args'), site=ctx.site(kv, x))
+        a_ = list(vcall[0].args.values())
+        ctx.check(a_[:2] == [('param', ps2[0]), ('param', ps2[1])], 'G2', 'key.verify(signature, data) argument order',
+                  key=('G2', 'rsa-key-args'), site=ctx.site(kv, vcall[0].node))
 
 
 def check_retention(ctx, esc):
